@@ -83,6 +83,8 @@ def opts_text(o):
 def beh_text(b):
     parts = ["cost:%d" % b["cost"], "step:%d" % b.get("step", 0), "mod:%d" % b.get("mod", 1), "an:%d" % b.get("an", 0), "az:%d" % b.get("az", 0),
              "rg:%d" % b.get("rg", 0), "mode:%d" % b.get("mode", 0)]
+    if "ar" in b:
+        parts.append("ar:%d" % b["ar"])
     if b.get("bc"):
         parts.append("bc:" + ",".join("%d=%d" % kv for kv in b["bc"]))
     return ";".join(parts)
@@ -211,6 +213,12 @@ def rand_beh(rng, profile):
         b["az"] = rng.choice([8, 64, 1000, 5000])
         if rng.random() < 0.4:
             b["rg"] = rng.choice([8, 100, 4096])
+        if rng.random() < 0.35:
+            # sporadic allocation: only the calls of one cost class allocate, so the fastest / slowest / median samples
+            # differ in their allocation figures (possibly zero under fastest and slowest, non-zero under median and mean)
+            b["mod"] = rng.choice([2, 3, 3, 4, 5])
+            b["step"] = rng.choice([1, 7, 40])
+            b["ar"] = rng.randrange(b["mod"])
     if rng.random() < profile.get("p_bcounter", 0.15):
         b["bc"] = [(k, rng.choice([0, 3, 77, 4096])) for k in rng.sample([0, 1, 2, 3], rng.randrange(1, 3))]
     if rng.random() < profile.get("p_nobench", 0.03):
